@@ -244,11 +244,13 @@ package raft
 //@ spec prsOK(r *raft) bool = r.prs != nil && (forall id uint64 :: in(id, r.prs) ==> r.prs[id] != nil)
 //@ spec rOK(r *raft) bool = r != nil && r.raftLog != nil && lOK(r.raftLog) && prsOK(r)
 
+//@ property C02 C01
 // majority of the VOTERS (r.prs); learners are not counted
 //@ func (r *raft) quorum() int
 //@   requires r != nil
 //@   ensures result == len(r.prs) / 2 + 1 && 2 * result > len(r.prs)
 
+//@ property C02
 // the commit index advances only to a value that (a) some voter's Match attests, read from a buffer that
 // holds exactly one slot per voter, and (b) passes the log's current-term rule (raftLog.maybeCommit)
 //@ func (r *raft) maybeCommit() bool
@@ -313,3 +315,159 @@ package raft
 //@   ensures result <==> (a.Term == b.Term && a.Vote == b.Vote && a.Commit == b.Commit)
 //@ func IsEmptyHardState(st pb.HardState) bool
 //@   ensures result <==> (st.Term == 0 && st.Vote == 0 && st.Commit == 0)
+
+//@ property C01
+// ================= election: per-step obligations (one real vote per term, term monotone, majority of voters) =================
+
+//@ func (r *raft) hardState() pb.HardState
+//@   requires r != nil && r.raftLog != nil
+//@   ensures result.Term == r.Term && result.Vote == r.Vote && result.Commit == r.raftLog.committed
+
+// restart: exactly the persisted (Term, Vote, Commit) is restored
+//@ func (r *raft) loadState(state pb.HardState)
+//@   requires rOK(r)
+//@   ensures r.Term == state.Term && r.Vote == state.Vote && r.raftLog.committed == state.Commit
+//@   ensures old(r.raftLog.committed) <= state.Commit && state.Commit <= llast(r.raftLog)
+//@   modifies r.Term, r.Vote, r.raftLog.committed
+
+//@ lemma lemmaHardStateRoundTrip(r *raft, r2 *raft)
+//@   requires rOK(r) && rOK(r2) && r != r2 && r.raftLog != r2.raftLog && r2.raftLog.committed <= r.raftLog.committed && r.raftLog.committed <= llast(r2.raftLog)
+//@   ensures r2.Term == r.Term && r2.Vote == r.Vote && r2.raftLog.committed == r.raftLog.committed
+//@   modifies r2.Term, r2.Vote, r2.raftLog.committed
+
+//@ func voteRespMsgType(msgt pb.MessageType) pb.MessageType
+//@   ensures (msgt == pb.MsgVote && result == pb.MsgVoteResp) || (msgt == pb.MsgPreVote && result == pb.MsgPreVoteResp)
+
+//@ func (r *raft) abortLeaderTransfer()
+//@   inline
+//@ func (r *raft) resetRandomizedElectionTimeout()
+//@   trusted random election timeout (globalRand)
+//@   modifies r.randomizedElectionTimeout
+//@ func newInflights(size int) *inflights
+//@   ensures result != nil && fresh(result)
+//@ func newReadOnly(option ReadOnlyOption) *readOnly
+//@   trusted allocates the read-only request queue
+//@   ensures result != nil && fresh(result) && result.option == option
+
+//@ func (r *raft) getProgress(id uint64) *Progress
+//@   requires r != nil
+//@   ensures in(id, r.prs) ==> result == r.prs[id]
+//@   ensures !in(id, r.prs) && in(id, r.learnerPrs) ==> result == r.learnerPrs[id]
+//@   ensures !in(id, r.prs) && !in(id, r.learnerPrs) ==> result == nil
+
+// only a voter (in prs, not flagged learner) without a pending snapshot may campaign
+//@ func (r *raft) promotable() bool
+//@   requires rOK(r)
+//@   ensures result ==> in(r.id, r.prs) && !r.prs[r.id].IsLearner
+//@   ensures result <==> (in(r.id, r.prs) && !r.prs[r.id].IsLearner && !(r.raftLog.unstable.snapshot != nil && !(r.raftLog.unstable.snapshot.Metadata.Index == 0)))
+
+//@ extern github.com/youzan/ZanRedisDB/raft.IsEmptySnap func(sp pb.Snapshot) bool
+//@   ensures result <==> sp.Metadata.Index == 0
+//@ func (l *raftLog) hasPendingSnapshot() bool
+//@   requires l != nil
+//@   ensures result <==> (l.unstable.snapshot != nil && !(l.unstable.snapshot.Metadata.Index == 0))
+
+// first answer of a voter wins; the result is the number of granted votes recorded
+//@ func (r *raft) poll(id uint64, t pb.MessageType, v bool) (granted int)
+//@   requires r != nil && r.votes != nil
+//@   ensures old(in(id, r.votes)) ==> (forall k uint64 :: (in(k, r.votes) <==> old(in(k, r.votes))) && r.votes[k] == old(r.votes[k]))
+//@   ensures !old(in(id, r.votes)) ==> in(id, r.votes) && r.votes[id] == v && (forall k uint64 :: k != id ==> (in(k, r.votes) <==> old(in(k, r.votes))) && r.votes[k] == old(r.votes[k]))
+//@   ensures granted == countTrue(r.votes) && 0 <= granted && granted <= len(r.votes)
+//@   ensures r.votes == old(r.votes)
+//@   modifies r.votes
+//@ loop 1
+//@   invariant r.votes == old(r.votes) && granted == countTrueVisited() && 0 <= granted && granted <= nvisited()
+
+// a message leaves with the sender's identity; vote traffic carries an explicit term, everything else the current term
+//@ func (r *raft) send(m pb.Message)
+//@   requires r != nil
+//@   ensures len(r.msgs) == old(len(r.msgs)) + 1
+//@   ensures r.msgs[len(r.msgs)-1].Type == m.Type && r.msgs[len(r.msgs)-1].To == m.To && r.msgs[len(r.msgs)-1].Reject == m.Reject && r.msgs[len(r.msgs)-1].From == r.id && r.msgs[len(r.msgs)-1].Index == m.Index && r.msgs[len(r.msgs)-1].LogTerm == m.LogTerm
+//@   ensures (m.Type == pb.MsgVote || m.Type == pb.MsgVoteResp || m.Type == pb.MsgPreVote || m.Type == pb.MsgPreVoteResp) ==> m.Term != 0 && r.msgs[len(r.msgs)-1].Term == m.Term
+//@   ensures !(m.Type == pb.MsgVote || m.Type == pb.MsgVoteResp || m.Type == pb.MsgPreVote || m.Type == pb.MsgPreVoteResp) ==> m.Term == 0 && (m.Type != pb.MsgProp && m.Type != pb.MsgReadIndex ==> r.msgs[len(r.msgs)-1].Term == r.Term)
+//@   ensures forall k int :: 0 <= k && k < old(len(r.msgs)) ==> r.msgs[k].Type == old(r.msgs[k].Type) && r.msgs[k].To == old(r.msgs[k].To) && r.msgs[k].Term == old(r.msgs[k].Term) && r.msgs[k].Reject == old(r.msgs[k].Reject)
+//@   modifies r.msgs, r.msgs[len(r.msgs):cap(r.msgs)]
+
+// (the callbacks of every caller keep each progress' learner flag)
+//@ func (r *raft) forEachProgress(f func(id uint64, pr *Progress))
+//@   inline
+//@ loop 1
+//@   invariant forall k uint64 :: in(k, r.prs) ==> r.prs[k].IsLearner == old(r.prs[k].IsLearner)
+//@   invariant forall k uint64 :: in(k, r.learnerPrs) ==> r.learnerPrs[k].IsLearner == old(r.learnerPrs[k].IsLearner)
+//@ loop 2
+//@   invariant forall k uint64 :: in(k, r.prs) ==> r.prs[k].IsLearner == old(r.prs[k].IsLearner)
+//@   invariant forall k uint64 :: in(k, r.learnerPrs) ==> r.learnerPrs[k].IsLearner == old(r.learnerPrs[k].IsLearner)
+
+//@ spec lprsOK(r *raft) bool = forall id uint64 :: in(id, r.learnerPrs) ==> r.learnerPrs[id] != nil
+
+// entering a term: the vote is forgotten exactly when the term changes
+//@ func (r *raft) reset(term uint64)
+//@   requires rOK(r) && lprsOK(r) && r.readOnly != nil
+//@   ensures r.Term == term && (term != old(r.Term) ==> r.Vote == None) && (term == old(r.Term) ==> r.Vote == old(r.Vote)) && r.lead == None
+//@   ensures r.votes != nil && fresh(r.votes) && len(r.votes) == 0 && countTrue(r.votes) == 0
+//@   ensures r.raftLog == old(r.raftLog) && lOK(r.raftLog) && r.prs == old(r.prs) && r.learnerPrs == old(r.learnerPrs) && prsOK(r) && lprsOK(r) && r.readOnly != nil
+//@   ensures forall id uint64 :: (in(id, r.prs) <==> old(in(id, r.prs))) && (in(id, r.prs) ==> r.prs[id] == old(r.prs[id]) && r.prs[id].IsLearner == old(r.prs[id].IsLearner))
+//@   ensures r.raftLog.committed == old(r.raftLog.committed) && llast(r.raftLog) == old(llast(r.raftLog))
+//@   modifies r.Term, r.Vote, r.lead, r.electionElapsed, r.heartbeatElapsed, r.randomizedElectionTimeout, r.leadTransferee, r.votes, r.pendingConf, r.readOnly, alloftype(Progress)
+
+// a follower never enters a smaller term
+//@ func (r *raft) becomeFollower(term uint64, lead uint64)
+//@   requires rOK(r) && lprsOK(r) && r.readOnly != nil && term >= r.Term
+//@   ensures r.Term == term && (term != old(r.Term) ==> r.Vote == None) && (term == old(r.Term) ==> r.Vote == old(r.Vote)) && r.lead == lead && r.state == StateFollower && r.step != nil
+//@   ensures r.raftLog == old(r.raftLog) && lOK(r.raftLog) && r.prs == old(r.prs) && r.learnerPrs == old(r.learnerPrs) && prsOK(r) && lprsOK(r) && r.readOnly != nil
+//@   ensures r.raftLog.committed == old(r.raftLog.committed) && llast(r.raftLog) == old(llast(r.raftLog)) && len(r.msgs) == old(len(r.msgs)) && sameSlice(r.msgs, old(r.msgs))
+//@   modifies r.step, r.tick, r.state, r.Term, r.Vote, r.lead, r.electionElapsed, r.heartbeatElapsed, r.randomizedElectionTimeout, r.leadTransferee, r.votes, r.pendingConf, r.readOnly, alloftype(Progress)
+
+// a real candidacy: next term, vote for itself
+//@ func (r *raft) becomeCandidate()
+//@   requires rOK(r) && lprsOK(r) && r.readOnly != nil && r.Term < 18446744073709551615
+//@   ensures old(r.state) != StateLeader
+//@   ensures r.Term == old(r.Term) + 1 && r.Vote == r.id && r.state == StateCandidate && r.id == old(r.id)
+//@   ensures r.votes != nil && len(r.votes) == 0 && countTrue(r.votes) == 0
+//@   ensures r.raftLog == old(r.raftLog) && lOK(r.raftLog) && r.prs == old(r.prs) && r.learnerPrs == old(r.learnerPrs) && prsOK(r) && lprsOK(r) && r.readOnly != nil
+//@   modifies r.step, r.tick, r.state, r.Term, r.Vote, r.lead, r.electionElapsed, r.heartbeatElapsed, r.randomizedElectionTimeout, r.leadTransferee, r.votes, r.pendingConf, r.readOnly, alloftype(Progress)
+
+// a pre-candidacy changes neither the term nor the vote
+//@ func (r *raft) becomePreCandidate()
+//@   requires r != nil
+//@   ensures old(r.state) != StateLeader
+//@   ensures r.Term == old(r.Term) && r.Vote == old(r.Vote) && r.state == StatePreCandidate && r.lead == None
+//@   ensures r.votes != nil && len(r.votes) == 0 && countTrue(r.votes) == 0
+//@   modifies r.step, r.tick, r.state, r.lead, r.votes
+
+//@ noeffect (*github.com/youzan/ZanRedisDB/raft/raftpb.Message).String (github.com/youzan/ZanRedisDB/raft/raftpb.Message).String (github.com/youzan/ZanRedisDB/raft/raftpb.MessageType).String (*github.com/youzan/ZanRedisDB/raft.Progress).String
+
+//@ spec isVoteResp(t pb.MessageType) bool = t == pb.MsgVoteResp || t == pb.MsgPreVoteResp
+//@ spec stepKeeps(r *raft) bool = rOK(r) && lprsOK(r) && r.readOnly != nil && r.step != nil
+
+// role-specific step functions (stepLeader / stepCandidate / stepFollower), called for every message type
+// except MsgHup, MsgVote and MsgPreVote: they never lower the term, never change the vote within a term,
+// and never answer a vote request.  ASSUMED here for the function value stored in r.step (stepCandidate is
+// additionally verified against it below).
+//@ extern funcval:github.com/youzan/ZanRedisDB/raft.stepFunc func(r *raft, m pb.Message) bool
+//@   requires stepKeeps(r)
+//@   ensures stepKeeps(r) && r.Term >= old(r.Term) && (r.Term == old(r.Term) ==> r.Vote == old(r.Vote)) && r.id == old(r.id) && r.isLearner == old(r.isLearner)
+//@   ensures len(r.msgs) >= old(len(r.msgs)) && (forall k int :: old(len(r.msgs)) <= k && k < len(r.msgs) ==> !(isVoteResp(r.msgs[k].Type) && !r.msgs[k].Reject))
+//@   modifies *
+
+// MsgHup: a node that may not campaign changes nothing; a pre-election keeps term and vote; a real
+// election moves to the next term and votes for itself.  No vote *response* is ever produced here.
+//@ func (r *raft) hup(t CampaignType)
+//@   trusted campaign + becomeLeader path (progress bookkeeping, broadcast) is not verified yet; see promotable/becomeCandidate/becomePreCandidate/poll/quorum which are
+//@   requires stepKeeps(r)
+//@   ensures stepKeeps(r) && r.id == old(r.id) && r.isLearner == old(r.isLearner)
+//@   ensures !(in(r.id, r.prs) && !r.prs[r.id].IsLearner) ==> r.Term == old(r.Term) && r.Vote == old(r.Vote) && r.state == old(r.state) && len(r.msgs) == old(len(r.msgs))
+//@   ensures (r.Term == old(r.Term) && r.Vote == old(r.Vote)) || (r.Term == old(r.Term) + 1 && r.Vote == r.id)
+//@   ensures len(r.msgs) >= old(len(r.msgs)) && (forall k int :: old(len(r.msgs)) <= k && k < len(r.msgs) ==> !isVoteResp(r.msgs[k].Type))
+//@   modifies *
+
+// ---- the central per-message contract ----
+//@ func (r *raft) Step(m pb.Message) error
+//@   requires stepKeeps(r) && r.Term < 18446744073709551615 && 0 <= r.electionElapsed && r.electionElapsed < 2147483648 && 0 <= r.electionTimeout && r.electionTimeout < 2147483648
+//@   ensures r.Term >= old(r.Term)
+//@   ensures r.Term == old(r.Term) ==> (r.Vote == old(r.Vote) || old(r.Vote) == None)
+//@   ensures len(r.msgs) >= old(len(r.msgs))
+//@   ensures forall k int :: old(len(r.msgs)) <= k && k < len(r.msgs) && r.msgs[k].Type == pb.MsgVoteResp && !r.msgs[k].Reject ==> r.Vote == r.msgs[k].To && r.msgs[k].Term == r.Term && r.msgs[k].To == m.From
+//@   ensures old(r.isLearner) && (m.Type == pb.MsgVote || m.Type == pb.MsgPreVote) ==> (r.Vote == old(r.Vote) || r.Vote == None) && (forall k int :: old(len(r.msgs)) <= k && k < len(r.msgs) ==> !(isVoteResp(r.msgs[k].Type) && !r.msgs[k].Reject))
+//@   ensures m.Term > old(r.Term) && (m.Type == pb.MsgVote || m.Type == pb.MsgPreVote) && !bytesEq(m.Context, "CampaignTransfer") && old(r.checkQuorum && r.lead != None && r.electionElapsed < r.electionTimeout) ==> r.Term == old(r.Term) && r.Vote == old(r.Vote) && len(r.msgs) == old(len(r.msgs))
+//@   modifies *
